@@ -261,7 +261,7 @@ def call_builtin(ex, st: State, name: str, args, kwargs, node):
             st.set_list_seq(r, st.list_seq(v))
             return [(st, r)]
         if cc in ('dict', 'set', 'dictview'):
-            seq, n, _ = m.iter_seq(ex, st, v)
+            seq = m.element_seq(ex, st, v)
             r = st.alloc('list')
             st.set_list_seq(r, seq)
             return [(st, r)]
@@ -448,7 +448,7 @@ def call_method(ex, st: State, recv: V, name: str, args, kwargs, node):
             if m.container_cls(ex, st, o) in ('list', 'tuple', 'deque'):
                 st.set_list_seq(recv, z3.Concat(seq, st.list_seq(o)))
                 return [(st, NONE)]
-            sq, _n, _el = m.iter_seq(ex, st, o)
+            sq = m.element_seq(ex, st, o)
             if sq is None:
                 sq = fresh(SeqVal, 'extended')     # unknown iterable: arbitrary elements are appended
             st.set_list_seq(recv, z3.Concat(seq, sq))
